@@ -1491,6 +1491,19 @@ class BaseInterpreter(Generic[TContext, TEvent]):
             )
         registry[system_id] = actor
 
+    def _unregister_from_system(
+        self, actor: "BaseInterpreter[Any, Any]"
+    ) -> None:
+        """Drops every `system_id` under which an actor is registered.
+
+        Args:
+            actor (BaseInterpreter): The actor that is being stopped.
+        """
+        registry = self._system_registry()
+        for system_id, candidate in list(registry.items()):
+            if candidate is actor:
+                del registry[system_id]
+
     def _resolve_delay(self, spec: Any, event: Any) -> Optional[float]:
         """Resolves a delay specification to milliseconds.
 
